@@ -914,6 +914,17 @@ fn run_scheduled(case: &BuilderCase, out: &mut Outcome) -> Vec<BuildObs> {
             out.fail(v.clone());
         }
     }
+    if rep.failure.is_some() {
+        // the closure did not reach its end: collect the disk statistics of the interrupted build
+        let d = verif_rt::simfs::uninstall();
+        out.fault_n("io.short.write", d.short_writes);
+        out.fault_n("io.short.read", d.short_reads);
+        out.fault_n("io.eintr", d.eintr);
+        out.fault_n("disk.enospc", d.enospc);
+        out.fault_n("disk.eio", d.eio);
+        out.fault_n("disk.open", d.open_failed);
+        out.fault_n("disk.seek", d.seek_failed);
+    }
     if let Some(msg) = rep.failure {
         // a failure of the shuttle run itself: deadlock, step bound, or a panic inside a task
         let disk_hard = case.disk.as_ref().map(|d| d.has_hard()).unwrap_or(false);
